@@ -67,6 +67,30 @@ func init() {
 			return nil
 		}
 	}
+	for _, m := range []string{"Store", "LoadOrStore", "Delete", "Swap", "LoadAndDelete", "CompareAndSwap"} {
+		m := m
+		stubs["(*sync.Map)."+m] = func(e *Exec, fn *ssa.Function, args []Value) Value {
+			e.PreWrites["sync.Map."+m+" (process-local cache)"] = true
+			e.path.events = append(e.path.events, "syncmap:"+m)
+			res := fn.Signature.Results()
+			switch res.Len() {
+			case 0:
+				return nil
+			case 1:
+				return e.zero(res.At(0).Type())
+			}
+			t := make(Tuple, res.Len())
+			for i := range t {
+				t[i] = e.zero(res.At(i).Type())
+			}
+			return t
+		}
+	}
+	stubs["(*sync.Map).Load"] = func(e *Exec, fn *ssa.Function, args []Value) Value {
+		e.Notes["stub sync.Map.Load: cold cache (not found); any Store is reported as process-local state"] = true
+		return Tuple{Iface{}, smt.False}
+	}
+	stubs["(*sync.Map).Range"] = func(e *Exec, fn *ssa.Function, args []Value) Value { return nil }
 	stubs["(*sync.Mutex).Lock"] = func(e *Exec, fn *ssa.Function, args []Value) Value {
 		e.path.events = append(e.path.events, "lock:Lock")
 		return nil
